@@ -740,7 +740,7 @@ class Exec:
         if m: return ('ref',) + self.parse_place(m.group(1))
         m = re.match(r'^(.*) as (\w+) \(IntToInt\)$', s)
         if m: return ('icast', co(m.group(1)), m.group(2))
-        m = re.match(r'^(.*) as (.*) \((PointerCoercion.*|Transmute|PtrToPtr)\)$', s)
+        m = re.match(r'^(.*) as (.*) \((PointerCoercion.*|Transmute|PtrToPtr|Subtype)\)$', s)
         if m: return ('use', co(m.group(1)))
         if re.match(r'^(copy|move|no_retag copy|no_retag move|const) ', s): return ('use', co(s))
         if s.startswith('[') and s.endswith(']'):
